@@ -29,6 +29,9 @@ QUICK_FILES = [
     {'fmt': '1014', 'lens': [100, 5500, 50, 300], 'content': 'coded'},          # one large record, small ones after it
     {'fmt': '1014', 'lens': [4096, 4100, 6000, 7], 'content': 'random'},
     {'fmt': 'vbs', 'lens': [6000, 3, 4095], 'content': 'coded'},
+    # the maximum record length is whatever the configuration says at the time of reading: raised at run time here
+    {'fmt': 'vbs', 'lens': [300, 7000, 20, 6001, 5], 'content': 'coded', 'configured_max': 12000},
+    {'fmt': '1014', 'lens': [40, 6500, 7], 'content': 'random', 'configured_max': 9000},
 ]
 CHUNK = 150
 
@@ -181,10 +184,27 @@ def judge(ctx, case):
     data, recs, expect = build(ctx, spec)
     blocked = spec['fmt'].endswith('1014')
     lo, hi = case['offsets']
+    cmax = spec.get('configured_max')
+    if cmax:
+        from cardutil.config import config as live
+        saved = live.get('MAX_VBS_RECORD_LENGTH')
+        live['MAX_VBS_RECORD_LENGTH'] = cmax
+        ctx.count('truncated files read with the configured maximum raised at run time')
+        try:
+            return judge_offsets(ctx, case, spec, data, recs, expect, blocked, lo, hi, cmax)
+        finally:
+            if saved is None:
+                live.pop('MAX_VBS_RECORD_LENGTH', None)
+            else:
+                live['MAX_VBS_RECORD_LENGTH'] = saved
+    return judge_offsets(ctx, case, spec, data, recs, expect, blocked, lo, hi, 6000)
+
+
+def judge_offsets(ctx, case, spec, data, recs, expect, blocked, lo, hi, max_len):
     for t in range(lo, hi + 1):
         cut = data[:t]
         P = ref.payload_stream(cut) if blocked else cut
-        want_raw, ending = ref.vbs_records_in(P)
+        want_raw, ending = ref.vbs_records_in(P, max_len)
         want = expect[:len(want_raw)]
         # the reference reader must itself agree that the surviving records are a prefix of the originals
         if want_raw != recs[:len(want_raw)]:
@@ -241,6 +261,8 @@ def canaries(ctx):
 
 def require(m):
     reasons = []
+    if not m['counters'].get('truncated files read with the configured maximum raised at run time') and not m['violations']:
+        reasons.append('no truncated file read with the configured maximum raised at run time')
     need = {'end', 'short_record'}
     if not need <= set(m['classes'].get('endings predicted by the model', ())):
         reasons.append('model endings not all exercised')
